@@ -101,4 +101,147 @@ theorem smFromQualifier_roundtrip (ds : List SMDom) (hn : (ds.map (·.name)).Nod
   rw [smAdd_distinct ds [] (by simpa using hn)]
   simp
 
+theorem readSecMet_erase (q : Quals) (a : String) (h : "sec_met_domain" ≠ a) : readSecMet (Q.erase q a) = readSecMet q := by
+  unfold readSecMet; rw [Q.get?_erase_other q a _ h]
+theorem readGeneFns_erase (q : Quals) (a : String) (h : "gene_functions" ≠ a) : readGeneFns (Q.erase q a) = readGeneFns q := by
+  unfold readGeneFns; rw [Q.get?_erase_other q a _ h]
+theorem readTable_erase (dt : Int) (q : Quals) (a : String) (h : "transl_table" ≠ a) : readTable dt (Q.erase q a) = readTable dt q := by
+  unfold readTable; rw [Q.get?_erase_other q a _ h]
+theorem readShifted_erase (loc : Loc) (q : Quals) (a : String) (h : "codon_start" ≠ a) : readShifted loc (Q.erase q a) = readShifted loc q := by
+  unfold readShifted; rw [Q.get?_erase_other q a _ h]
+
+theorem readSecMet_of (q : Quals) (ds : List SMDom) (hq : Q.get? q "sec_met_domain" = smQ ds) (hn : (ds.map (·.name)).Nodup)
+    (h : ∀ d ∈ ds, d.textSafe = true) : readSecMet q = .ok ds := by
+  unfold readSecMet
+  rw [hq]
+  unfold smQ
+  cases ds with
+  | nil => rfl
+  | cons d rest =>
+    have := smFromQualifier_roundtrip (d :: rest) hn h
+    simpa using this
+
+theorem readGeneFns_of (q : Quals) (l : List Annot) (hq : Q.get? q "gene_functions" = fnsQ l) (hn : l.Nodup)
+    (h : ∀ a ∈ l, a.wf = true ∧ a.textSafe = true) : readGeneFns q = .ok l := by
+  unfold readGeneFns
+  rw [hq]
+  unfold fnsQ
+  cases l with
+  | nil => rfl
+  | cons a rest =>
+    have := annFromQualifier_roundtrip (a :: rest) [] h (by simpa using hn)
+    simpa using this
+
+set_option maxHeartbeats 1600000 in
+theorem cdsFromBio_spec (dt : Int) (trOK : String → Loc → Bool) (c : Cds) (h : c.WF trOK) (W : Quals)
+    (hlook : ∀ k ∈ cdsPopped, Q.get? W k = Q.get? c.mine k) (hcod : Q.get? W "codon_start" = none) :
+    Cds.fromBio dt trOK ⟨c.feat.loc, "CDS", W⟩ =
+      (applyLeftovers ⟨c.feat.loc, "CDS", [], [], false, none⟩ (cdsPopped.foldl Q.erase W)).map fun feat => { c with feat := feat } := by
+  have lk : ∀ k, k ∈ cdsPopped → Q.get? W k = _ := fun k hk => (hlook k hk).trans (get?_cds_mine c h.table k)
+  have l1 : Q.get? W "protein_id" = optV c.proteinId := by rw [lk _ (by simp [cdsPopped])]; simp
+  have l2 : Q.get? W "locus_tag" = optV c.locusTag := by rw [lk _ (by simp [cdsPopped])]; simp
+  have l3 : Q.get? W "gene" = optV c.gene := by rw [lk _ (by simp [cdsPopped])]; simp
+  have l4 : Q.get? W "transl_table" = some [strOfInt c.translTable] := by rw [lk _ (by simp [cdsPopped])]; simp
+  have l5 : Q.get? W "translation" = some [c.translation] := by rw [lk _ (by simp [cdsPopped])]; simp
+  have l6 : Q.get? W "product" = optV (some c.product) := by rw [lk _ (by simp [cdsPopped])]; simp
+  have l7 : Q.get? W "sec_met_domain" = smQ c.secMet := by rw [lk _ (by simp [cdsPopped])]; simp
+  have l8 : Q.get? W "gene_functions" = fnsQ c.geneFns := by rw [lk _ (by simp [cdsPopped])]; simp
+  have l9 : Q.get? W "NRPS_PKS" = none := by rw [lk _ (by simp [cdsPopped])]; simp
+  have htag : (if (c.locusTag.getD "").isEmpty then none else some (noSpaces (c.locusTag.getD ""))) = c.locusTag := by
+    cases hl : c.locusTag with
+    | none => rfl
+    | some s =>
+      have hs : s ≠ "" := fun e => h.tag.1 (by rw [hl, e])
+      have h2 := h.tag.2.1
+      rw [hl] at h2
+      simp only [Option.map_some, Option.some.injEq] at h2
+      simp [isEmpty_false_of_ne hs, h2]
+  have htab : readTable dt W = .ok c.translTable := by unfold readTable; rw [l4]; simp [intOfStr_strOfInt, pure, Except.pure]
+  have hshift : readShifted c.feat.loc W = .ok c.feat.loc := by unfold readShifted; rw [hcod]; rfl
+  have htr : firstOr W "translation" = .ok c.translation := by unfold firstOr; rw [l5]; rfl
+  have hsm := readSecMet_of W c.secMet l7 h.sm.1 h.sm.2
+  have hfn := readGeneFns_of W c.geneFns l8 h.fns.1 h.fns.2
+  unfold Cds.fromBio
+  simp (config := { maxSteps := 2000000 }) (disch := decide) only [firstOr_erase, popOpt_erase, Q.get?_erase_other, readSecMet_erase,
+    readGeneFns_erase, readTable_erase, readShifted_erase]
+  simp only [popOpt_of l1 h.pid.1, firstOr_of l2, popOpt_of l3 h.gene.1, bind, Except.bind, htab, hshift, htr, hsm, hfn, firstOr_of l6]
+  simp only [htag, h.named, h.strand, Bool.not_true, Bool.false_eq_true, if_false, isEmpty_false_of_ne h.tr.1, h.tr.2.2, Bool.or_self,
+    Option.getD_some, l9, Option.getD_none, List.isEmpty_nil, h.tag.2.2, h.pid.2, h.gene.2, h.tr.2.1, pure, Except.pure]
+  simp only [cdsPopped, List.foldl_cons, List.foldl_nil]
+  cases applyLeftovers ⟨c.feat.loc, "CDS", [], [], false, none⟩ _ <;> rfl
+
+theorem cds_mine_other (c : Cds) (h : c.translTable ≠ 0) (k : String) (hk : k ∉ cdsKeys) : Q.get? c.mine k = none := by
+  rw [get?_cds_mine c h]
+  simp only [cdsKeys, cdsPopped, List.cons_append, List.nil_append, List.mem_cons, List.mem_nil_iff, or_false, not_or] at hk
+  simp [hk]
+
+theorem cds_roundtrip (t : Bool) (dt : Int) (trOK : String → Loc → Bool) (c : Cds) (h : c.WF trOK) (b : Bio) (hb : c.toBio = .ok b) :
+    ∃ c', Cds.fromBio dt trOK b = .ok c' ∧ c' = { c with feat := c'.feat } ∧
+      Q.get? c'.feat.quals "gene_kind" = kindQ c.geneFns ∧
+      ({ c'.feat with quals := Q.erase c'.feat.quals "gene_kind" } : Feat).view t = c.feat.view t ∧
+      c'.feat.loc = c.feat.loc := by
+  have hX := nodup_cds_mine c
+  have hFQ := nodup_finalQuals c.feat c.mine h.feat.quals
+  unfold Cds.toBio at hb
+  rw [toBio_eq, h.codon] at hb
+  simp only [Except.ok.injEq] at hb
+  subst hb
+  obtain ⟨W, hWdef⟩ : ∃ W, W = Q.sortKeys (finalQuals c.feat c.mine) := ⟨_, rfl⟩
+  have look : ∀ k, Q.get? W k = Q.get? (finalQuals c.feat c.mine) k := by
+    intro k; rw [hWdef]; exact Q.get?_sortKeys hFQ k
+  have hW : ∀ k ∈ cdsKeys, Q.get? W k = Q.get? c.mine k := by
+    intro k hk
+    have h2 : k ≠ "tool" := by intro e; subst e; simp [cdsKeys, cdsPopped] at hk
+    have h3 : k ≠ "note" := by intro e; subst e; simp [cdsKeys, cdsPopped] at hk
+    rw [look]
+    cases hm : Q.get? c.mine k with
+    | none => rw [get?_FQ_rest c.feat _ hX k h.codon h2 h3 hm]; exact h.reserved k hk
+    | some v => exact get?_FQ_extra c.feat _ hX k v h.codon h2 h3 hm
+  have hKX := cds_mine_other c h.table
+  have hcodW : Q.get? W "codon_start" = none := by
+    rw [look, get?_FQ_rest c.feat _ hX _ h.codon (by decide) (by decide) (hKX _ (by simp [cdsKeys, cdsPopped]))]
+    exact h.feat.noCodonKey
+  have hspec := cdsFromBio_spec dt trOK c h W (fun k hk => hW k (by simp [cdsKeys, hk])) hcodW
+  rw [h.type, ← hWdef, hspec]
+  -- the leftovers: everything popped is gone, `gene_kind` stays
+  obtain ⟨L, hLdef⟩ : ∃ L, L = cdsPopped.foldl Q.erase W := ⟨_, rfl⟩
+  rw [← hLdef]
+  have hnL : Q.Nodup L := by rw [hLdef, hWdef]; exact nodup_eraseAll _ (Q.nodup_sortKeys hFQ)
+  have hL : ∀ k, Q.get? L k = if k ∈ cdsPopped then none else Q.get? W k := by intro k; rw [hLdef]; exact get?_eraseAll _ _ _
+  have hL0 : ∀ k, Q.get? (Q.erase L "gene_kind") k = if k ∈ cdsKeys then none else Q.get? (Q.sortKeys (finalQuals c.feat c.mine)) k := by
+    intro k
+    rw [Q.get?_erase, hL, ← hWdef]
+    by_cases a0 : k = "gene_kind"
+    · subst a0; simp [cdsKeys]
+    · by_cases a1 : k ∈ cdsPopped
+      · have : k ∈ cdsKeys := by simp [cdsKeys, a1]
+        simp [a0, a1, this]
+      · have : k ∉ cdsKeys := by simp [cdsKeys, a0, a1]
+        simp [a0, a1, this]
+  obtain ⟨f0, e1, e2, _, _, _, _, _, _, _, _⟩ := class_leftovers_roundtrip t c.feat c.mine cdsKeys (Q.erase L "gene_kind") h.feat h.byAS
+    h.codon hX hKX (by simp [cdsKeys, cdsPopped]) h.reserved (Q.nodup_erase hnL _) hL0
+  have hcod0 : Q.get? (Q.erase L "gene_kind") "codon_start" = none := by
+    rw [hL0]; simp only [cdsKeys, cdsPopped]; simp; rw [← hWdef]; exact hcodW
+  have hcod : Q.get? L "codon_start" = none := by
+    have := hcod0; rw [Q.get?_erase] at this; simpa using this
+  have htool0 : Q.get? (Q.erase L "gene_kind") "tool" = some ["antismash"] := by
+    rw [hL0]; simp only [cdsKeys, cdsPopped]; simp
+    rw [Q.get?_sortKeys hFQ, get?_FQ_toolX c.feat _ hX h.byAS h.codon]
+  have htool : Q.get? L "tool" = some ["antismash"] := by
+    have := htool0; rw [Q.get?_erase] at this; simpa using this
+  rw [h.type, applyLeftovers_plain _ _ rfl (Q.nodup_erase hnL _) hcod0] at e1
+  rw [applyLeftovers_plain _ _ rfl hnL hcod]
+  have hkind : Q.get? L "gene_kind" = kindQ c.geneFns := by
+    rw [hL]
+    simp only [cdsPopped]; simp
+    rw [hW _ (by simp [cdsKeys]), get?_cds_mine c h.table]; simp
+  simp only [Except.map]
+  refine ⟨_, rfl, rfl, hkind, ?_, rfl⟩
+  have hf0 : f0 = { (⟨c.feat.loc, "CDS", [], [], true, none⟩ : Feat) with
+      byAS := !(Q.erase L "gene_kind").isEmpty && (Q.get? (Q.erase L "gene_kind") "tool" == some ["antismash"]),
+      quals := Q.erase L "gene_kind" } := by
+    cases e1; rfl
+  rw [← e2, hf0]
+  simp only [htool0, htool, Q.isEmpty_of_get? htool0, Q.isEmpty_of_get? htool]
+
 end ASV.Serial
